@@ -2,7 +2,28 @@
 //! result line per case (stdout). Every case runs under catch_unwind; a panic raised by the
 //! verification hook inside an unchecked accessor is reported as `(-9)` (never a model result).
 mod sx;
-mod c01;
+mod num;
+mod c00;
+#[cfg(feature = "c01")] mod c01;
+#[cfg(feature = "c02")] mod c02;
+#[cfg(feature = "c03")] mod c03;
+#[cfg(feature = "c04")] mod c04;
+#[cfg(feature = "c05")] mod c05;
+#[cfg(feature = "c06")] mod c06;
+#[cfg(feature = "c07")] mod c07;
+#[cfg(feature = "c08")] mod c08;
+#[cfg(feature = "c09")] mod c09;
+#[cfg(feature = "c10")] mod c10;
+#[cfg(feature = "c11")] mod c11;
+#[cfg(feature = "c12")] mod c12;
+#[cfg(feature = "c13")] mod c13;
+#[cfg(feature = "c14")] mod c14;
+#[cfg(feature = "c15")] mod c15;
+#[cfg(feature = "c16")] mod c16;
+#[cfg(feature = "c17")] mod c17;
+#[cfg(feature = "c18")] mod c18;
+#[cfg(feature = "c19")] mod c19;
+#[cfg(feature = "c20")] mod c20;
 
 use std::cell::RefCell;
 use std::io::{BufRead, Write};
@@ -41,7 +62,47 @@ fn dispatch(case: &Sx) -> Sx {
         _ => return sx::bad_case(),
     };
     match items[0].i64() {
+        Some(0) => c00::run(&items[1..]),
+        #[cfg(feature = "c01")]
         Some(1) => c01::run(&items[1..]),
+        #[cfg(feature = "c02")]
+        Some(2) => c02::run(&items[1..]),
+        #[cfg(feature = "c03")]
+        Some(3) => c03::run(&items[1..]),
+        #[cfg(feature = "c04")]
+        Some(4) => c04::run(&items[1..]),
+        #[cfg(feature = "c05")]
+        Some(5) => c05::run(&items[1..]),
+        #[cfg(feature = "c06")]
+        Some(6) => c06::run(&items[1..]),
+        #[cfg(feature = "c07")]
+        Some(7) => c07::run(&items[1..]),
+        #[cfg(feature = "c08")]
+        Some(8) => c08::run(&items[1..]),
+        #[cfg(feature = "c09")]
+        Some(9) => c09::run(&items[1..]),
+        #[cfg(feature = "c10")]
+        Some(10) => c10::run(&items[1..]),
+        #[cfg(feature = "c11")]
+        Some(11) => c11::run(&items[1..]),
+        #[cfg(feature = "c12")]
+        Some(12) => c12::run(&items[1..]),
+        #[cfg(feature = "c13")]
+        Some(13) => c13::run(&items[1..]),
+        #[cfg(feature = "c14")]
+        Some(14) => c14::run(&items[1..]),
+        #[cfg(feature = "c15")]
+        Some(15) => c15::run(&items[1..]),
+        #[cfg(feature = "c16")]
+        Some(16) => c16::run(&items[1..]),
+        #[cfg(feature = "c17")]
+        Some(17) => c17::run(&items[1..]),
+        #[cfg(feature = "c18")]
+        Some(18) => c18::run(&items[1..]),
+        #[cfg(feature = "c19")]
+        Some(19) => c19::run(&items[1..]),
+        #[cfg(feature = "c20")]
+        Some(20) => c20::run(&items[1..]),
         _ => sx::bad_case(),
     }
 }
